@@ -86,6 +86,14 @@ def run(pid):
         r2 = tlc.run_model("OpsGen", cfg % (7, 4), sc, workers=1, timeout=900, tags=("O",), heap="6g",
                            extra=("-simulate", f"num={150 if quick else 3000}", "-depth", "8", "-seed", str(seed() + 7)))
         deep = [json.loads(v[1]) for v in r2["prints"]["O"]]
+        # the peephole neighbourhood: the same gate objects appended twice under every pair of qubit maps, then cancelled
+        r3 = tlc.run_model("PeepGen", "SPECIFICATION Spec\nINVARIANT Emit\nCHECK_DEADLOCK FALSE\n", sc, workers=4, timeout=900, tags=("O",), heap="4g")
+        peep = [json.loads(v[1]) for v in r3["prints"]["O"]]
+        for k in ("generated", "distinct"):
+            gst[k] = gst.get(k, 0) + r3["stats"].get(k, 0)
+        if quick:
+            rng.shuffle(peep)
+            peep = peep[:500]
         # keep only maximal histories (every prefix is replayed on the way)
         vlog("histories", len(hists), len(deep))
         full = [h for h in hists if len(h) == 3]
@@ -98,7 +106,7 @@ def run(pid):
         dmax = {}
         for h in deep:
             dmax[hkey(h[:2])] = h if len(h) > len(dmax.get(hkey(h[:2]), [])) else dmax[hkey(h[:2])]
-        hs = full + list(dmax.values())
+        hs = full + list(dmax.values()) + peep
         jobs = [{"hists": hs[k:k + 60]} for k in range(0, len(hs), 60)]
         cases = [c for r in run_jobs(job, jobs) for c in r]
         for k, c in enumerate(cases):
